@@ -359,6 +359,28 @@ def _lock_of(n1: ast.AST, n2: ast.AST, model: Model, sn: str | None, *, per_key_
     return None, ""
 
 
+def _reach_user_exc(v: MethodView, starts: list[Node], blocked: list[Node], blocked_edges: list[tuple[Node, str]] = ()) -> set[Node]:
+    """Forward reachability that follows exceptional edges only out of statements where foreign code runs or the task
+    can be cancelled (suspension points) and out of explicit raises; bookkeeping statements are assumed not to raise."""
+    cfg = v.cfg
+    user = set(v.susp) | {n for n in cfg.nodes if n.ast is not None and (isinstance(n.ast, ast.Raise) or any(isinstance(x, (ast.Await, ast.Yield)) for x in exprs_in_node(n)))}
+    blocked_s, be = set(blocked), set(blocked_edges)
+    seen: set[Node] = set()
+    stack = [s for s in starts if s not in blocked_s]
+    while stack:
+        n = stack.pop()
+        if n in seen:
+            continue
+        seen.add(n)
+        for lab, t in cfg.succ[n]:
+            if (n, lab) in be or t in blocked_s or t in seen:
+                continue
+            if lab in NOEXC and n not in user:
+                continue
+            stack.append(t)
+    return seen
+
+
 def _desc(v: MethodView, path: list[Node]) -> list[str]:
     return [f"{n.kind}@{n.line}{n.tag}: {' '.join(ast.unparse(n.ast).split())[:70] if n.kind == 'stmt' else ''}".rstrip(": ") for n in path if n.ast is not None][:10]
 
@@ -415,7 +437,7 @@ def _store_attr(model: Model) -> str:
     return written.pop()
 
 
-def _r1(chk, model: Model, views: dict[str, MethodView], store: str) -> None:
+def _r1(chk, model: Model, views: dict[str, MethodView], store: str, mediators: set[str] = frozenset()) -> None:
     m = model.m
     examined = 0
     susp_methods = [v for v in views.values() if v.susp]
@@ -436,6 +458,10 @@ def _r1(chk, model: Model, views: dict[str, MethodView], store: str) -> None:
                 chk.observe(f"C22.R1: ContextVar `{loc.name}` is created per instance; contexts keep ContextVars alive (leak under workflow churn) — outside the statement")
             continue
         if loc.nature == "lock":
+            continue
+        if loc.name in mediators:
+            chk.ob("C22.R1", f"`{loc.name}` is the in-flight table of the create-once protocol (registered before the first suspension, awaited by later callers): shared on purpose", True,
+                   m=m, node=loc.node, fn=enclosing_function(loc.node) if loc.node is not None else None, instance=loc.name)
             continue
         fired = False
         for v in views.values():
@@ -503,8 +529,10 @@ def _reads_loc(e: ast.AST, sn: str | None, name: str) -> bool:
     return any(isinstance(x, ast.Attribute) and x.attr == name and isinstance(x.value, ast.Name) and x.value.id == sn for x in ast.walk(e))
 
 
-def _r2(chk, model: Model, views: dict[str, MethodView], store: str) -> None:
+def _r2(chk, model: Model, views: dict[str, MethodView], store: str) -> set[str]:
+    """Returns the names of in-flight tables accepted as the create-once mediator (R1 does not treat them as per-resolution state)."""
     m = model.m
+    mediators: set[str] = set()
     sloc = next(l for l in model.locs if l.name == store)
     helpers = {n for n, f in model.methods.items() if n != "__init__" and _writes_store_directly(f, store)}
     sites = 0
@@ -533,7 +561,10 @@ def _r2(chk, model: Model, views: dict[str, MethodView], store: str) -> None:
                 if any(_reads_loc(variant, v.sn, store) for variant in (t.ast.test, expand(t.ast.test, t.ast))):
                     tests.append((t, lab))
             verdict, reason, path = False, "", []
+            w_locked = any(isinstance(a, ast.AsyncWith) for a in ancestors(w.ast))
+            mode = "lock-excludes-test" if w_locked else "unlocked"
             if not tests:
+                mode = "unchecked"
                 reason = f"`{store}` is written after a suspension with no membership test on it: the last finisher overwrites (two tasks both create the resource)"
             for t, lab in tests:
                 starts = [x for l2, x in cfg.succ[t] if l2 == lab]
@@ -542,26 +573,26 @@ def _r2(chk, model: Model, views: dict[str, MethodView], store: str) -> None:
                     verdict = True
                     break
                 lock, why = _lock_of(t.ast, w.ast, model, v.sn, per_key_ok=True)
-                if lock is not None and any(a is next((aw for aw in ancestors(w.ast) if isinstance(aw, ast.AsyncWith)), None) for a in ancestors(t.ast)) or (lock is not None and _inside_header_body(t, w)):
+                if lock is not None:
                     verdict = True
                     break
-                if _inflight(model, v, t, lab, mid, store):
+                med = _inflight(model, v, t, lab, mid, store)
+                if med is not None:
+                    mediators.add(med)
                     verdict = True
                     break
                 p = cfg.path(t, mid[0]) + cfg.path(mid[0], w)[1:]
                 path = _desc(v, p)
                 reason = (f"`{' '.join(ast.unparse(t.ast.test).split())[:70]}` (line {t.line}) is decided before the coroutine suspends at line {mid[0].line} and `{store}` is written at line {w.line}: "
-                          f"two step tasks can both see the resource missing and both create it (no lock around test+write, no awaited in-flight entry)")
+                          f"two step tasks can both see the resource missing and both create it ("
+                          + ("the write is under a lock but the test is not repeated inside it" if w_locked else "no lock around test+write, no awaited in-flight entry") + ")")
             chk.ob("C22.R2", f"a cached resource is created once: the test on `{store}` and the write that follows a suspension are atomic, locked, or mediated by an awaited in-flight entry",
-                   verdict, m=m, node=w.ast, fn=v.fn, instance=f"create-once:{store}", reason=reason, path=path)
+                   verdict, m=m, node=w.ast, fn=v.fn, instance=f"create-once:{store}" + ("" if verdict else f":{mode}"), reason=reason, path=path)
     chk.floor("C22.R2", f"writes of the persistent store `{store}` that can follow a suspension point", sites, 1)
+    return mediators
 
 
-def _inside_header_body(t: Node, w: Node) -> bool:
-    return False
-
-
-def _inflight(model: Model, v: MethodView, t: Node, lab: str, mid: list[Node], store: str) -> bool:
+def _inflight(model: Model, v: MethodView, t: Node, lab: str, mid: list[Node], store: str) -> str | None:
     """In-flight idiom: between the store test and the first suspension a shared table F is written, and a test on F that
     dominates that write awaits the pending entry on its hit branch (and does not raise there)."""
     cfg = v.cfg
@@ -578,7 +609,7 @@ def _inflight(model: Model, v: MethodView, t: Node, lab: str, mid: list[Node], s
             continue  # a suspension is reachable without registering
         for n in fw:
             for tf, lf in cfg.guards(n):
-                if tf.kind != "test" or not _reads_loc(tf.ast.test, v.sn, loc.name):
+                if tf.kind != "test" or not any(_reads_loc(e, v.sn, loc.name) for e in (tf.ast.test, expand(tf.ast.test, tf.ast))):
                     continue
                 other = [x for l2, x in cfg.succ[tf] if l2 in ("T", "F") and l2 != lf]
                 hit = cfg.reach(other, blocked=[n], labels_excluded=NOEXC)
@@ -587,8 +618,8 @@ def _inflight(model: Model, v: MethodView, t: Node, lab: str, mid: list[Node], s
                 raises_first = any(h.kind == "stmt" and isinstance(h.ast, ast.Raise) for l2, h in [(None, o) for o in other]) or \
                     any(isinstance(h.ast, ast.Raise) and not awaits for h in hit if h.ast is not None)
                 if awaits and not raises_first:
-                    return True
-    return False
+                    return loc.name
+    return None
 
 
 def _awaits_alias_of(fn: ast.AST, aw: ast.Await, sn: str | None, name: str) -> bool:
@@ -663,7 +694,7 @@ def _r5(chk, model: Model, views: dict[str, MethodView], store: str) -> None:
                 for lab in ("T", "F"):
                     if all(w in atoms(tt.ast.test, lab == "T") for w in want):
                         absent.append((tt, lab))
-            r = cfg.reach(starts, blocked=pops, blocked_edges=absent)
+            r = _reach_user_exc(v, starts, pops, absent)
             leaks = [x for x in (cfg.exit, cfg.raise_exit) if x in r]
             p = cfg.path(starts[0], leaks[0], blocked=pops) if leaks and starts else []
             chk.ob("C22.R5", "every push on the cycle chain is popped on every exit, also when the factory raises or the task is cancelled", not leaks,
@@ -715,7 +746,7 @@ def _r5(chk, model: Model, views: dict[str, MethodView], store: str) -> None:
                     undo.append(u)
             ys = [y for y in yields if y in cfg.reach([n], include_starts=False)]
             starts = [x for y in ys for _lab, x in cfg.succ[y]]
-            r = cfg.reach(starts, blocked=undo)
+            r = _reach_user_exc(v, starts, undo)
             leaks = [x for x in (cfg.exit, cfg.raise_exit) if x in r]
             chk.ob("C22.R5", f"what the resolution scope sets up (`{' '.join(ast.unparse(n.ast).split())[:50]}`) is undone on every exit of the `with` body, also when it raises", not leaks,
                    m=m, node=n.ast, fn=v.fn, instance=f"scope-balance:{kind}",
@@ -740,7 +771,7 @@ def _r5(chk, model: Model, views: dict[str, MethodView], store: str) -> None:
                             if isinstance(e, ast.Compare) and depth_attr in text and isinstance(e.ops[0], ast.Eq) and any(isinstance(c, ast.Constant) and c.value == 0 for c in [e.left] + e.comparators) and not pol:
                                 nonzero.append((tt, lab))
             starts = [x for y in yields for _lab, x in cfg.succ[y]]
-            r = cfg.reach(starts, blocked=clears, blocked_edges=nonzero)
+            r = _reach_user_exc(v, starts, clears, nonzero)
             leaks = [x for x in (cfg.exit, cfg.raise_exit) if x in r]
             chk.ob("C22.R5", f"the per-resolution cache `{loc.name}` kept on the instance is cleared on every exit of the outermost scope (non-cached resources are fresh per step invocation)",
                    not leaks, m=m, node=loc.node, fn=v.fn, instance=f"scope-clears:{loc.name}",
@@ -760,8 +791,8 @@ def run(chk) -> None:
         chk.note_fn(model.m, v.fn)
     chk.extra["may_suspend"] = {"never_suspends": sorted(model.nosuspend), "scope_yield_spans_suspension": model.cm_suspends,
                                 "state_locations": [f"{l.kind}:{l.name}:{l.nature}" for l in model.locs], "persistent_store": store}
-    _r1(chk, model, views, store)
-    _r2(chk, model, views, store)
+    mediators = _r2(chk, model, views, store)
+    _r1(chk, model, views, store, mediators)
     _r5(chk, model, views, store)
 
 
@@ -920,6 +951,85 @@ TWINS = [
         ("        resolving.append(resource.name)\n        try:\n", "        resolving.append(resource.name)\n        self._seen[asyncio.current_task()] = len(resolving)\n        try:\n"),
         ("        finally:\n            resolving.remove(resource.name)\n", "        finally:\n            resolving.remove(resource.name)\n            self._seen.pop(asyncio.current_task(), None)\n"),
     ), None),
+    Twin("repair with an awaited in-flight future instead of a lock", _P, _OLD, _variant(
+        ("        self._creating: dict[str, asyncio.Lock] = {}\n", "        self._pending: dict[str, asyncio.Future[Any]] = {}\n"),
+        ("        if resource.cache and resource.name in self.resources:\n            return self.resources[resource.name]\n",
+         "        if resource.cache and resource.name in self.resources:\n            return self.resources[resource.name]\n"
+         "        pending = self._pending.get(resource.name) if resource.cache else None\n        if pending is not None:\n            return await pending\n"),
+        ('''        resolving.append(resource.name)
+        try:
+            if not resource.cache:
+                val = await resource.resolve(self)
+            else:
+                async with self._creating.setdefault(resource.name, asyncio.Lock()):
+                    if resource.name in self.resources:
+                        return self.resources[resource.name]
+                    val = await resource.resolve(self)
+                    await self.set(resource.name, val)
+            state.cache[resource.name] = val
+            return val
+        finally:
+            resolving.remove(resource.name)
+''', '''        fut: asyncio.Future[Any] | None = None
+        if resource.cache:
+            fut = asyncio.get_running_loop().create_future()
+            self._pending[resource.name] = fut
+        resolving.append(resource.name)
+        try:
+            val = await resource.resolve(self)
+            if fut is not None:
+                await self.set(resource.name, val)
+                fut.set_result(val)
+            state.cache[resource.name] = val
+            return val
+        except BaseException as exc:
+            if fut is not None and not fut.done():
+                fut.set_exception(exc)
+            raise
+        finally:
+            resolving.remove(resource.name)
+            if fut is not None:
+                self._pending.pop(resource.name, None)
+'''),
+    ), None),
+    Twin("in-flight future registered only after the factory started", _P, _OLD, _variant(
+        ("        self._creating: dict[str, asyncio.Lock] = {}\n", "        self._pending: dict[str, asyncio.Future[Any]] = {}\n"),
+        ("        if resource.cache and resource.name in self.resources:\n            return self.resources[resource.name]\n",
+         "        if resource.cache and resource.name in self.resources:\n            return self.resources[resource.name]\n"
+         "        pending = self._pending.get(resource.name) if resource.cache else None\n        if pending is not None:\n            return await pending\n"),
+        ('''        resolving.append(resource.name)
+        try:
+            if not resource.cache:
+                val = await resource.resolve(self)
+            else:
+                async with self._creating.setdefault(resource.name, asyncio.Lock()):
+                    if resource.name in self.resources:
+                        return self.resources[resource.name]
+                    val = await resource.resolve(self)
+                    await self.set(resource.name, val)
+            state.cache[resource.name] = val
+            return val
+        finally:
+            resolving.remove(resource.name)
+''', '''        fut: asyncio.Future[Any] | None = None
+        resolving.append(resource.name)
+        try:
+            args = await resource._resolve_dependencies(self)
+            if resource.cache:
+                fut = asyncio.get_running_loop().create_future()
+                self._pending[resource.name] = fut
+            val = await resource.resolve(self)
+            if fut is not None:
+                await self.set(resource.name, val)
+                fut.set_result(val)
+            state.cache[resource.name] = val
+            return val
+        finally:
+            resolving.remove(resource.name)
+            if fut is not None:
+                self._pending.pop(resource.name, None)
+'''),
+    ), "C22.R2"),
     Twin("ContextVar with a shared mutable default", _P, _OLD, _variant(
         ('''_RESOLUTION: ContextVar[_Resolution | None] = ContextVar(
     "workflows_resource_resolution", default=None
@@ -983,7 +1093,7 @@ TWINS = [
     Twin("chain entry removed only on success", _P,
          "            self._resolution_cache[resource.name] = val\n            return val\n        finally:\n            if resource.name in self._resolving:\n                self._resolving.remove(resource.name)\n",
          "            self._resolution_cache[resource.name] = val\n            self._resolving.remove(resource.name)\n            return val\n        finally:\n            pass\n", "C22.R5"),
-    Twin("benign: count() instead of `in` keeps the same findings", _P, "            if resource.name in self._resolving:\n                self._resolving.remove(resource.name)", "            if self._resolving.count(resource.name):\n                self._resolving.remove(resource.name)", None),
+    Twin("benign: unconditional pop in the finally", _P, "            if resource.name in self._resolving:\n                self._resolving.remove(resource.name)", "            self._resolving.remove(resource.name)", None),
     Twin("benign: early-return form of get", _P,
          "        if self._resolution_depth == 0:\n            with self.resolution_scope():\n                return await self._get(resource)\n        return await self._get(resource)\n",
          "        if self._resolution_depth != 0:\n            return await self._get(resource)\n        with self.resolution_scope():\n            return await self._get(resource)\n", None),
